@@ -431,8 +431,8 @@ def k_limit_fortunes(eng, which):
 
 def k_sect1(eng):
     """LunarSect1 strategy: the distance between birth and the governing Jie is counted in whole days and double hours (branch index of the
-    hour, (h + 1) div 2): 3 days = 1 year, 1 day = 4 months, 1 double hour = 10 days.  Hours 23 of either instant are outside the claim
-    (the strategy files 23:00 under index 11 by a rule of its own)."""
+    hour, (h + 1) div 2): 3 days = 1 year, 1 day = 4 months, 1 double hour = 10 days.  At 23:xx the strategy counts index 11 of the day that ends
+    (the strategy files 23:00 under index 11 of the day that ends: a convention of its own, taken as part of its definition)."""
     holder = {}
 
     class DayOf:
@@ -483,9 +483,10 @@ def k_sect1(eng):
         model.call = call
         paths = ctx.run(fn, [("refrec", rec), birth, term])
         ib, it = "(+ (* 24 %s) %s)" % (db.s, hb.s), "(+ (* 24 %s) %s)" % (dt.s, ht.s)
-        pre = ["(<= 0 %s 22)" % hb.s, "(<= 0 %s 22)" % ht.s, "(<= 1721424 %s 5373484)" % db.s, "(<= (- 32) (- %s %s) 32)" % (dt.s, db.s),
+        pre = ["(<= 0 %s 23)" % hb.s, "(<= 0 %s 23)" % ht.s, "(<= 1721424 %s 5373484)" % db.s, "(<= (- 32) (- %s %s) 32)" % (dt.s, db.s),
                "(=> %s (>= %s %s))" % (after.s, ib, it), "(=> (not %s) (<= %s %s))" % (after.s, ib, it)]
-        zb, zt = "(div (+ %s 1) 2)" % hb.s, "(div (+ %s 1) 2)" % ht.s
+        # the strategy's own convention for the late Zi hour (inherited from the library it was ported from): 23:xx counts as index 11 of the day that ends
+        zb, zt = "(ite (= %s 23) 11 (div (+ %s 1) 2))" % (hb.s, hb.s), "(ite (= %s 23) 11 (div (+ %s 1) 2))" % (ht.s, ht.s)
         tot = "(ite %s (+ (* 12 (- %s %s)) (- %s %s)) (+ (* 12 (- %s %s)) (- %s %s)))" % (after.s, db.s, dt.s, zb, zt, dt.s, db.s, zt, zb)
 
         def shape(p):
@@ -509,5 +510,5 @@ def k_sect1(eng):
             return nat == "PANIC", "native scan: " + (nat or "no output")
         return True, "LunarSect1 limit: " + nat
 
-    r = run_kernel(eng, "16.b/B/ratio/LunarSect1", "16.b", "birth and Jie up to 32 days apart either way, hours 0..22 each", build, None, replay)
+    r = run_kernel(eng, "16.b/B/ratio/LunarSect1", "16.b", "birth and Jie up to 32 days apart either way, every hour 0..23", build, None, replay)
     return _finish(r, holder["ctx"]) if "ctx" in holder else r
